@@ -577,3 +577,41 @@ def search_programs(ctx, log, n=6000, budget=30000, seeds=()):
             ctx.violate("found by the search: evaluation crashed", source=s, observed=o[:300])
     ctx.stats["search_programs"] = len(srcs)
     log("search: %d programs, %d failing inputs found" % (len(srcs), found))
+
+
+SPECIAL_VALUES = ["(0.0 / 0.0)", "(1.0 / 0.0)", "(0.0 - 1.0 / 0.0)", "(0.0 * (0.0 - 1.0))", "0.0", "2.5", "1152921504606846975", "(0 - 1152921504606846975 - 1)", "0", "(0 - 1)", "\"\"", "\"é🇳\"", "\"12\"",
+                  "[]", "[[]]", "[1, 2.5, \"x\"]", "(als nee { 1 })", "ja", "nee", "functie() { 1 }", "functie(a, b) { a }"]
+BINOPS_ALL = ["+", "-", "*", "/", "%", "<", "<=", ">", ">=", "==", "!=", "&&", "||"]
+BUILTIN_NAMES = ["print", "type", "bool", "int", "float", "string", "lengte"]
+
+
+def special_values_family():
+    """every special value through every operator (both as variables and inside a function: fused forms), every prefix
+    operator, every builtin with one and two arguments, and as base / index / stored value of an index expression"""
+    out = []
+    vs = SPECIAL_VALUES
+    for a in vs:
+        for op in ("-", "!"):
+            out.append("stel x = %s; %sx" % (a, op))
+        for b in BUILTIN_NAMES:
+            out.append("stel x = %s; %s(x)" % (a, b))
+            out.append("stel x = %s; %s(\"{} {}\", x, x)" % (a, b) if b == "print" else "stel x = %s; %s(x, x)" % (a, b))
+        out.append("stel x = %s; stel l = [1, 2]; l[x]" % a)
+        out.append("stel x = %s; stel l = [1, 2]; l[0] = x; l" % a)
+        out.append("stel x = %s; stel l = [1, 2]; l[x] = 1; l" % a)
+        out.append("stel x = %s; stel t = \"ab\"; t[x]" % a)
+        out.append("stel x = %s; stel t = \"ab\"; t[0] = x; t" % a)
+        out.append("stel x = %s; x[0]" % a)
+        out.append("stel x = %s; x[0] = 1" % a)
+        out.append("stel x = %s; x(1)" % a)
+        out.append("stel x = %s; als x { 1 } anders { 2 }" % a)
+        out.append("stel x = %s; stel k = 0; zolang x { k += 1; als k > 2 { stop } } k" % a)
+        out.append("stel x = %s; print(\"{}\", x); print(\"{}\", [x, [x]]); string(x)" % a)
+        for b in vs:
+            for op in BINOPS_ALL:
+                out.append("stel x = %s; stel y = %s; x %s y" % (a, b, op))
+        for op in BINOPS_ALL:
+            out.append("functie f(x) { x %s 3 } f(%s)" % (op, a))
+            out.append("functie f(x) { 3 %s x } f(%s)" % (op, a))
+            out.append("functie f(x, y) { x %s y } f(%s, %s)" % (op, a, a))
+    return out
